@@ -49,6 +49,10 @@ CLAIMS['C19'] = ('Bounded symbolic model checking of Optic.to_dict / from_dict a
     'aperture type, telecentric flag, pickup, solve, polarization state - all numeric leaves symbolic - the reloaded lens has a leaf-wise equal dictionary form (solver-decided term equality), equal prescription snapshot, equal paraxial terms and equal ray-trace records; '
     'every leaf is a JSON type; the same after each edit operation. The concrete replay additionally goes through a real JSON file.',
     'byte-level float round trip of JSON is CPython repr/float contract (assumed); catalogue Material lookups not symbolic; K=2; numba-compiled BSDF parameters concrete')
+CLAIMS['C20'] = ('Bounded symbolic model checking of the real ZemaxFileReader + ZemaxToOpticConverter + AbbeMaterial on generated .zmx files (UTF-8 and UTF-16) whose numeric tokens are symbolic '
+    '(bound through a shadowed float() in the reader): surface count, radii = 1/CURV or infinity, vertex = running sums of DISZ, conic, PARM n -> coefficient n-1, media (model glass n_d/V_d, catalogue glass, air), stop, '
+    'aperture, field type and de-duplicated sorted values, wavelengths and primary, and the paraxial focal length of the written numbers; MODE != SEQ rejected. All SMT queries decided unsat.',
+    'files of 1-3 (thorough 6) real surfaces from one generator template (record order as Zemax writes it); mirrors / coordinate breaks not covered; catalogue lookup concrete (one glass)')
 NOT_YET = 'check not built yet in this round (work in progress; see DESIGN.md section 6 for the plan)'
 
 props = [json.loads(l) for l in open(os.path.join(ROOT, 'properties.jsonl'))]
